@@ -92,7 +92,7 @@ var Profiles = map[string]func() Profile{
 		p.W = wts(int(KNewEntity), 12, int(KNewBatch), 10, int(KAdd), 8, int(KRemove), 6, int(KExchange), 4, int(KWrite), 3,
 			int(KSetRel), 4, int(KCopy), 3, int(KRemoveEntity), 5, int(KAddBatch), 10, int(KRemoveBatch), 10, int(KExchangeBatch), 8,
 			int(KSetRelBatch), 8, int(KRemoveEntities), 6, int(KReset), 1, int(KShrink), 1, int(KRegFilter), 3, int(KUnregFilter), 2,
-			int(KSet), 5, int(KRegObs), 3, int(KUnregObs), 1) // observers watch what each API variant reports (Map[T], MapN, ExchangeN, batches)
+			int(KSet), 5, int(KRegObs), 3, int(KUnregObs), 1, int(KMisuse), 4) // observers watch what each API variant reports (Map[T], MapN, ExchangeN, batches)
 		p.RelPct = 60
 		p.HotComps = 6
 		p.FilterSlots = 4
